@@ -173,7 +173,9 @@ fn calc_yearly_max_cost_day(max_day_costs: &MaxDayCosts) -> YearlyMaxCosts {
             Some(old_date) => {
                 let old_date_cost =
                     max_day_costs.max_costs_by_day.get(old_date).unwrap();
-                if *old_date_cost.total < *day_cost.total {
+                if *old_date_cost.total < *day_cost.total
+                    || (*old_date_cost.total == *day_cost.total && *day < *old_date)
+                {
                     max_cost_day_for_year.insert(day.year(), day.clone());
                 }
             }
